@@ -177,10 +177,16 @@ pub fn run(c: &Value) -> Value {
             json!({"format":"ok","s":s,"r":r})
         }
         // ------------------------------------------------------------ C03 / C09 / C10
-        "pipe" | "pipe_v" => {
+        "pipe" | "pipe_v" | "pipe_l" => {
             let fmt = s_of(c, "fmt");
-            // pipe: the text is given; pipe_v: the text is what the real enum formatter writes for the value
-            let s = if op == "pipe" { text_of(c, "s") } else {
+            // pipe: the text is given; pipe_v: the text is what the real enum formatter writes for the value;
+            // pipe_l: the text is what the real LEXICAL formatter writes for the lexical value
+            let s = if op == "pipe" { text_of(c, "s") } else if op == "pipe_l" {
+                match guarded(|| lnarsese_of(&c["v"]).map(|v| lex_format(fmt).format_narsese(&v))) {
+                    Ok(Ok(s)) => s,
+                    e => return json!({"build":"fail","msg":format!("{e:?}")}),
+                }
+            } else {
                 match guarded(|| narsese_of(&c["v"]).map(|v| enum_format(fmt).format_narsese(&v))) {
                     Ok(Ok(s)) => s,
                     e => return json!({"build":"fail","msg":format!("{e:?}")}),
